@@ -4,6 +4,7 @@ Forward analysis with abstract inlining of in-crate callees, trace partitioning 
 enum variants / constant flags, LIN constraint stores, provenance-carrying values.
 """
 import os
+import time
 import sys
 from lin import Lin, ATOMS, Store, le, lt
 from values import (Loc, World, Obj, TY, reg_ty, UNIT, MOVED, TRUE, FALSE, vint, vbool,
@@ -13,6 +14,10 @@ from mirlib import strip_generics, pp_span, liveness
 USIZE_MAX = 2 ** 64 - 1
 FALSE_CON = Lin.c(1)
 ISIZE_MAX = 2 ** 63 - 1
+
+
+class BudgetExceeded(Exception):
+    """the wall-clock budget of one analysis ran out (not an AnalysisError: it must not be swallowed as an imprecise block)"""
 
 
 class AnalysisError(Exception):
@@ -96,6 +101,8 @@ class Interp:
         self.cfg = config or {}
         self.records = {}           # (ctx, bb) -> list[Record]
         self.unmodelled = {}        # description -> count
+        self.budget_s = int(self.cfg.get('budget_s', os.environ.get('VERIF_BUDGET_S', '900')))
+        self.deadline = time.time() + self.budget_s
         self.stats = {'blocks': 0, 'joins': 0, 'widenings': 0, 'calls_inlined': 0,
                       'worlds_max': 0, 'functions': set()}
         self._single_assign = {}
@@ -1045,7 +1052,7 @@ class Interp:
         if not ok:
             failing = [c for c in cons if not w.store.entails(c)]
             if (frame.body.key in self.cfg.get('decline_loop_obligations_in', ()) or getattr(self, 'root_key', None) in self.cfg.get('decline_loop_obligations_in', ())) and \
-                    all(any(a in self.loop_atoms for a in c.atoms()) for c in failing):
+                    all(self._loop_dependent(w, c) for c in failing):
                 data['declined'] = 'depends on a loop-carried quantity (relational loop invariant out of reach)'
             data['needs'] = [f"{c.pretty()} <= 0" for c in failing]
             data['state'] = self.describe_store(w, failing)
@@ -1063,6 +1070,18 @@ class Interp:
             if w.store.bottom_after(ats):
                 w.dead = True
         return ok
+
+    def _loop_dependent(self, w, c):
+        """does deciding constraint c need a quantity accumulated in a loop?  Either c mentions one, or what the store knows about
+        the atoms of c is (transitively) tied to one - `range 7..9 within len(buffer)` when all that is known about len(buffer) is
+        `len(buffer) >= 4 + sum of the extension lengths`"""
+        if any(a in self.loop_atoms for a in c.atoms()):
+            return True
+        if not self.cfg.get('decline_transitive'):
+            return False
+        from lin import _relevant
+        rel, _ = _relevant(w.store.cons, set(c.atoms()))
+        return any(a in self.loop_atoms for r_ in rel for a in r_.atoms())
 
     def fail(self, w, frame, site, okind, desc, extra=None):
         data = {'okind': okind, 'ok': False, 'desc': desc, 'needs': [], 'state': self.describe_store(w, []), 'part': self.partition(w)}
@@ -1239,6 +1258,21 @@ class Interp:
                         w.mem[root] = new
                     elif ov[0] == 'agg' and v in ov[1]:
                         w.mem[root] = ('agg', tuple(new if x == v else x for x in ov[1]))
+            if w.alias:
+                # ... and unmodified copies of the refined place learn it too
+                for (croot, cpath), csrc in list(w.alias.items()):
+                    if csrc == loc and croot in w.mem and (croot, cpath) != (loc.root, loc.path):
+                        cl = Loc(croot, cpath)
+                        try:
+                            cv = self.read(w, cl)
+                        except AnalysisError:
+                            continue
+                        if cv == v:
+                            if cpath:
+                                self.write(w, cl, new)
+                            else:
+                                w.mem[croot] = new
+                            w.alias[(croot, cpath)] = csrc
             rh = self.cfg.get('refine_hook')
             if rh:
                 rh(self, w, loc, new)
@@ -1962,6 +1996,9 @@ class Interp:
             bb = min(pending, key=lambda b: order.get(b, 1 << 30))
             pending.discard(bb)
             steps += 1
+            if time.time() > self.deadline:
+                # fail closed: an analysis that does not finish within its budget is a tooling error of the check, never a pass
+                raise BudgetExceeded(f"analysis budget of {self.budget_s} s exceeded in {body.key} ({self.stats['blocks']} blocks interpreted)")
             if steps > self.cfg.get('max_steps', 6000):
                 raise AnalysisError(f"fixpoint did not converge in {body.key} (hot blocks {sorted(hot.items(), key=lambda x: -x[1])[:6]})")
             hot[bb] = hot.get(bb, 0) + 1
